@@ -714,17 +714,11 @@ func (f *Frame) calleeEffects(fi *FuncInfo) map[string]bool {
 	if !tainted {
 		eng.effects[fi.Fn] = eff
 	} else if len(eng.effBusy) == 1 {
-		union := map[string]bool{}
-		for _, m := range eng.effMembers {
-			for k := range m {
-				union[k] = true
-			}
-		}
-		for fn := range eng.effMembers {
-			eng.effects[fn] = union
-		}
+		// the outermost computation of a recursive group has reached its fixpoint: its own set is final. The other
+		// members are computed (with their own fixpoint) when they are asked for on their own - giving them the
+		// union of the group would be sound but needlessly imprecise.
+		eng.effects[fi.Fn] = eff
 		eng.effMembers = nil
-		eff = union
 	}
 	if os.Getenv("GOVC_DEBUG_EFFECTS") != "" {
 		fmt.Fprintf(os.Stderr, "effects(%s) = %v\n", fi.Fn.Name(), sortedKeys(eff))
